@@ -134,7 +134,7 @@ func c12SearchDriver(s *propSpec, b *build, a *agg) {
 	args := append(baseArgs(s, b), "-ref", refPath)
 	seqRuns, concRuns := int64(6000), int64(480)
 	if tier == "thorough" {
-		seqRuns, concRuns = 3000000, 120000
+		seqRuns, concRuns = 2400000, 100000
 	}
 	if *flagRuns > 0 {
 		seqRuns, concRuns = *flagRuns, *flagRuns/16+1
